@@ -57,6 +57,8 @@ def run_shard(desc, ctx):
         run_case({'kind': 'raw', 'seed': [desc['seed'], desc['shard'], i]}, ctx)
     for i in range(desc['models']):
         run_case({'kind': 'model', 'seed': [desc['seed'], desc['shard'], i, 3]}, ctx)
+    if desc['shard'] in (3, 11):
+        run_case({'kind': 'big_export', 'seed': [desc['seed'], desc['shard']]}, ctx)
 
 
 def run_case(case, ctx):
@@ -64,10 +66,38 @@ def run_case(case, ctx):
     try:
         if case['kind'] == 'raw':
             _raw(case, ctx, d)
+        elif case['kind'] == 'big_export':
+            _big_export(case, ctx, d)
         else:
             _model(case, ctx, d)
     finally:
         shutil.rmtree(d, ignore_errors=True)
+
+
+def _big_export(case, ctx, d):
+    """One recording chunk yields more than 8 MiB of waveforms, the chunk before it only a few spikes."""
+    from phylib.io.traces import get_ephys_reader, export_waveforms
+    rng = np.random.default_rng(case['seed'])
+    n, nc, nsw = 6000, 8, 64
+    A = L.unique_cells(n, nc, np.dtype('int16'))
+    rd = get_ephys_reader(A, sample_rate=5.)          # chunks of 3000 samples
+    few = [100, 800, 2500] if case['seed'][1] % 2 else [40, 2900]
+    samples = np.r_[few, np.sort(rng.integers(3100, 5900, size=2100))].astype(np.int64)
+    rows = np.tile(np.arange(nc), (len(samples), 1))
+    path = os.path.join(d, 'big.npy')
+    ctx.count(1, key=hkey('big_export', tuple(case['seed'])), nontrivial=True, cell=('array', 'int16', 'big_export'))
+    r = call(export_waveforms, path, rd, samples, rows, n_samples_waveforms=nsw, cache=False, sample2unit=1.0)
+    f = {'route': 'export', 'big_export': True}
+    if not r.ok:
+        ctx.violation('route_raised', case, 'export_waveforms of %d spikes raised %r' % (len(samples), r.exc), dict(f, exc=r.exc_name), tb=r.tb)
+        return
+    got = np.load(path)
+    exp = np.stack([A[s - nsw // 2:s - nsw // 2 + nsw] for s in samples.tolist()]).astype(np.float64)
+    dd = same(got, exp)
+    if dd:
+        bad = [i for i in range(len(samples)) if got.shape == exp.shape and not np.array_equal(got[i], exp[i])][:5]
+        ctx.violation('export_mismatch', case, 'export of %d spikes (%.1f MiB from one chunk): %s; first wrong rows %r' % (
+            len(samples), exp[len(few):].nbytes / 2 ** 20, dd, bad), f)
 
 
 def gen_raw(seed):
@@ -151,7 +181,8 @@ def open_reader(g, d):
         rate = g['chunk'] / 600.
         if be == 'flat':
             off = [0, 16, 7, 0][(n + len(g['parts'])) % 4]          # a header before the samples of every part file
-            paths = L.write_flat(d, A, g['parts'], ext=['.bin', '.dat'][n % 2], offset=off)
+            # (every third multi-file recording: parts with the same base name in different folders)
+            paths = L.write_flat(d, A, g['parts'], ext=['.bin', '.dat'][n % 2], offset=off, same_name=len(g['parts']) > 1 and n % 3 == 2)
             rd = get_ephys_reader(paths, sample_rate=rate, dtype=A.dtype, n_channels=g['nc'], offset=off)
         elif be == 'npy':
             rd = get_ephys_reader(L.write_npy(d, A), sample_rate=rate)
@@ -226,6 +257,8 @@ def _raw(case, ctx, d):
     # ---- route (b): chunk-by-chunk export ---------------------------------------------------------
     path = os.path.join(d, 'wf.npy')
     factor = g['factor']
+    if (g['n'] + nsw + len(samples)) % 9 == 4:
+        factor = [0, 0.0, -3][(g['n'] + nsw) % 3]           # a unit factor of exactly zero is a factor like any other; so is a negative one
     expw = windows(A, samples, nsw, rows.tolist())
     expf = expw.astype(np.float64) * factor
     fb = dict(feats, route='export', raw_dtype=g['dtype'], factor_type=type(factor).__name__)
